@@ -11,6 +11,8 @@ PLURAL = {n: n.lower() + ("es" if n.endswith(("s", "x")) else "s") for n in NOUN
 PLURAL["Shelf"] = "shelves"
 VERBS = ["Polish", "Archive", "Inspect", "Rotate", "Seal"]
 KEYWORD_RPCS = ["Import", "Yield", "Pass", "Return"]
+# RPC names that are also the name of a member every emitted TRANSPORT has of its own (close(), kind)
+TRANSPORT_MEMBER_RPCS = ["Close", "Kind"]
 SCALARS = ["double", "float", "int64", "uint64", "int32", "fixed64", "fixed32", "bool", "string", "bytes",
            "uint32", "sfixed32", "sfixed64", "sint32", "sint64"]
 MAP_KEYS = ["string", "int32", "int64", "bool", "uint32", "sint64", "fixed32"]
@@ -483,7 +485,7 @@ def _gen_methods(cx, pkg, main, svc, noun, res, enums, msgs):
         verb = rng.choice(VERBS)
         mname = f"{verb}{noun}"
         if cx.chance("p_keyword_rpc"):
-            cands = [k for k in KEYWORD_RPCS if _unique_method(svc, k)]
+            cands = [k for k in KEYWORD_RPCS + (TRANSPORT_MEMBER_RPCS if cx.rng.random() < 0.4 else []) if _unique_method(svc, k)]
             if cands:
                 mname = rng.choice(cands)
         if _unique_method(svc, mname) and not any(m["name"] == f"{mname}Request" for m in main["messages"]):
